@@ -916,6 +916,40 @@ def rule_PR1(ctx, rep):
                         first = _subst(il, jv, rb[0])
                         if first in (Lin.sym(f'<{hv} * d>'), Lin.sym(f'<d * {hv}>')):
                             good = True
+    if not good:
+        # running-index form: one counter, 0 before the loop over the secrets, advanced by 1 in every Horner step, d steps per secret
+        # (`stop = k + d; while k < stop: y = (y + prl[k]) * i1; k += 1`): by induction secret h uses prl[h*d .. h*d + d - 1]
+        wl = [w for w in iter_nodes(f0.node) if isinstance(w, ast.While)]
+        if len(wl) == 1 and len(wl[0].body) == 2 and isinstance(wl[0].test, ast.Compare) and len(wl[0].test.ops) == 1 and not wl[0].orelse:
+            w = wl[0]
+            t = w.test
+            kname = bound = None
+            if isinstance(t.ops[0], ast.Lt) and isinstance(t.left, ast.Name):
+                kname, bound = t.left.id, t.comparators[0]
+            elif isinstance(t.ops[0], ast.Gt) and isinstance(t.comparators[0], ast.Name):
+                kname, bound = t.comparators[0].id, t.left
+            step, inc = w.body
+            hloop = [l for l in enclosing_loops(w, pm, stop=f0.node) if isinstance(l, ast.For)]
+            i1 = [s_ for s_ in iter_nodes(f0.node) if isinstance(s_, ast.Assign) and _plus_one_party(s_.value) is not None and norm(_plus_one_party(s_.value)) == f0.params[2]]
+            if kname and isinstance(inc, ast.AugAssign) and isinstance(inc.op, ast.Add) and norm(inc.target) == kname and const_int(inc.value) == 1 \
+                    and isinstance(step, ast.Assign) and isinstance(step.value, ast.BinOp) and isinstance(step.value.op, ast.Mult) and len(hloop) == 2 and i1:
+                a, b = step.value.left, step.value.right
+                idx = [x for x in ast.walk(a) if isinstance(x, ast.Subscript)] if isinstance(a, ast.BinOp) and isinstance(a.op, ast.Add) else []
+                kdefs = [d for d in definitions(f0.node, kname)]
+                inits = [d for d in kdefs if d[2] == 'assign' and const_int(d[1]) == 0]
+                others = [d for d in kdefs if d[0] is not inc and d not in inits]
+                bl = to_lin(_xp_arith(f0, bound, w, pm), opaque=True)
+                inner_h, outer_s = hloop[0], hloop[1]
+                init_ok = len(inits) == 1 and not others and any(inits[0][0] is s_ for s_ in outer_s.body) and astq.position(inits[0][0]) < astq.position(inner_h)
+                # the bound is the counter's value before the loop plus d, computed in the body of the loop over the secrets before the while
+                bdef_ok = bl is not None and bl == Lin.sym(kname) + Lin.sym('d') and isinstance(bound, ast.Name) \
+                    and all(d_[0] is not w and any(d_[0] is s_ for s_ in inner_h.body) and astq.position(d_[0]) < astq.position(w)
+                            for d_ in definitions(f0.node, bound.id)) and len(definitions(f0.node, bound.id)) == 1
+                hrange = _range_bounds(inner_h.iter)
+                if idx and norm(idx[0].slice) == kname and norm(b) == norm(i1[0].targets[0]) and init_ok and bdef_ok \
+                        and hrange and hrange[0] == Lin(0) and hrange[1] == Lin.sym(f0.params[5]) - 1 and any(w is s_ for s_ in inner_h.body):
+                    good = True
+                    hl = [w]
     if good:
         rep.ok('PR1', f0, hl[0], 'all d values of a secret are used, as coefficients of x^1..x^d (Horner with a final multiplication)')
     else:
